@@ -25,4 +25,9 @@ HARNESSES = [
     CACHE("clear", 2, [(7, "quick"), (-1, "thorough")]),
     REG,
 ]
-PROPERTY = dict(level="model_checking", explanation="", bounds="", outside="", assumptions=[])
+PROPERTY = dict(level='model_checking',
+    claim="Session-cache operations from an arbitrary table entry: resume succeeds only with the full 32-byte id of a valid, unexpired entry with matching version and EMS and installs exactly that entry's secret and suite; error invalidates; register/clear keep the table invariant; psDiffMsecs never underestimates the elapsed time.",
+    bounds='one table slot per query (slots 0, 31 and out-of-range quick; all 32 thorough)',
+    outside='session tickets (seal/unlock), TLS 1.3 PSK binders, the resumption decision in parseClientHello, multi-step histories beyond the inductive step',
+    explanation="Session-cache operations from an arbitrary table entry: resume succeeds only with the full 32-byte id of a valid, unexpired entry with matching version and EMS and installs exactly that entry's secret and suite; error invalidates; register/clear keep the table invariant; psDiffMsecs never underestimates the elapsed time.",
+    assumptions=[])
